@@ -3,6 +3,7 @@ package main
 import (
 	"bytes"
 	"fmt"
+	"github.com/WICG/webpackage/go/signedexchange/mice"
 	"math/rand"
 	"net/http"
 	"strings"
@@ -38,7 +39,21 @@ func buildRecordedErr(sp *sxSpec, kc *keyCert, signed *[]map[string]interface{})
 		reqh = http.Header{}
 	}
 	e := sxg.NewExchange(sp.ver, sp.uri, sp.method, reqh, sp.status, cloneHeader(sp.resph), append([]byte{}, sp.payload...))
-	if err := e.MiEncodePayload(sp.rs); err != nil {
+	if sp.foreignMI {
+		// the payload protected, consistently, with the OTHER drafts' scheme (stream, digest header, content encoding)
+		other := mice.Draft02Encoding
+		if sp.ver == version.Version1b1 {
+			other = mice.Draft03Encoding
+		}
+		var st bytes.Buffer
+		dg, err := other.Encode(&st, e.Payload, sp.rs)
+		if err != nil {
+			return nil, err
+		}
+		e.Payload = st.Bytes()
+		e.ResponseHeaders.Add("Content-Encoding", other.ContentEncoding())
+		e.ResponseHeaders.Add(other.DigestHeaderName(), dg)
+	} else if err := e.MiEncodePayload(sp.rs); err != nil {
 		panic(err)
 	}
 	se := buildSigned(&sxSpec{ver: sp.ver, uri: "https://x.example/", method: "GET", reqh: http.Header{}, resph: http.Header{}, status: 200, rs: 16, certURL: sp.certURL, vURL: sp.vURL, date: sp.date, expires: sp.expires}, kc)
@@ -201,6 +216,11 @@ func sxgMut(args []string) error {
 				x.RequestHeaders["Accept"] = append([]string{""}, x.RequestHeaders["Accept"]...)
 			})
 			mem("resph new", func(x *sxg.Exchange) { x.ResponseHeaders.Add("X-New", "v") })
+			// added headers whose NAMES the format treats specially elsewhere: they are response headers like any other here
+			for _, hn := range []string{"Signature", "signature", "Digest2", ":status", "Content-Encoding2", "Link"} {
+				hn := hn
+				mem("resph new "+hn, func(x *sxg.Exchange) { x.ResponseHeaders[hn] = []string{"v"} })
+			}
 			mem("resph del", func(x *sxg.Exchange) { x.ResponseHeaders.Del("X-A") })
 			mem("resph case", func(x *sxg.Exchange) {
 				x.ResponseHeaders["x-a"] = x.ResponseHeaders["X-A"]
